@@ -159,9 +159,12 @@ def native_run(cfg, cases, outdir, cc='g++', opt='-O2'):
             lines.append('    static const unsigned char b%d[] = {%s}; %s a%d; std::memcpy(&a%d, b%d, sizeof a%d < sizeof b%d ? sizeof a%d : sizeof b%d);'
                          % (i, ','.join(map(str, bs)), pt, i, i, i, i, i, i, i))
             names.append('a%d' % i)
-        lines.append('    std::fesetround(%s);' % FE[rm])
-        lines.append('    auto r = %s(%s);' % (meta['name'], ', '.join(names)))
-        lines.append('    std::fesetround(FE_TONEAREST);')
+        # the call goes through a volatile function pointer: GCC treats the (noinline but visible) wrapper as const and would
+        # otherwise move it across fesetround even under -frounding-math
+        lines.append('    decltype(&%s) volatile fp_ = &%s;' % (meta['name'], meta['name']))
+        lines.append('    std::fesetround(%s); __asm__ __volatile__("" ::: "memory");' % FE[rm])
+        lines.append('    auto r = fp_(%s);' % ', '.join(names))
+        lines.append('    __asm__ __volatile__("" ::: "memory"); std::fesetround(FE_TONEAREST);')
         lines.append('    unsigned char out[sizeof r]; std::memcpy(out, &r, sizeof r); std::printf("R %d ", %d); for (unsigned i = 0; i < sizeof r; ++i) std::printf("%%02x", out[i]); std::printf("\\n");' % (ci, ci))
         lines.append('  }')
     lines.append('  return 0;\n}')
